@@ -19,9 +19,11 @@ def _set(items, k, v):
 
 
 def _value(key, p):
+    if len(p.components) == 1:
+        return None  # "a key-only parameter has no value" - whatever its key
     if key in MULTI:
         return ":".join(p.components[1:])
-    return p.components[1] if len(p.components) > 1 else None
+    return p.components[1]
 
 
 def format_for_name(name):
